@@ -450,7 +450,8 @@ func (s *Stream) handleFrame(f Frame) (err error) {
 		}
 	}
 
-	if err != nil {
+	if err != nil && s.state == StateActive {
+		// Start the closing handshake. If we already sent (or queued) a close frame we must not send another one.
 		s.state = StateClosedByUs
 		// TODO consider flushing the close
 		s.prepareClose(EncodeCloseFramePayload(CloseProtocolError, ""))
